@@ -4,6 +4,7 @@ import (
 	"context"
 	"fmt"
 	"os"
+	"strings"
 	"testing"
 	"time"
 
@@ -109,6 +110,63 @@ func c03Scenarios(batch int) []Scenario {
 			e.Deliver("C", e.W.C[9])
 		},
 		Check: commonCheck})
+	// SS5: two overlapping Head() callers on a stale subjective head share one request, which the trusted peers
+	// answer with a forged far header and a soft failure: both must bifurcate (or fail), neither may adopt it
+	out = append(out, Scenario{Name: "SS5-two-head-callers-soft-forged-answer", Batch: batch, Cfg: WCfg{N: 8, S: 3, R: 2, HeadAgeS: 100, FreshAfterS: true},
+		Setup: func(e *Env) {
+			// Start has synced to the tip; let it age beyond the recency threshold (3 x blockTime = 30s),
+			// so that Head() goes to the trusted peers with the subjective head as trusted head
+			time.Sleep(45 * time.Second)
+		},
+		Build: func(e *Env) {
+			evil := e.W.C.Fork(3, 14, "evil", 9)
+			e.W.G.mu.Lock()
+			e.W.G.softForged = evil[13]
+			e.W.G.mu.Unlock()
+			e.Note("heads0", e.W.G.heads)
+			for _, n := range []string{"H1", "H2"} {
+				n := n
+				e.Thread(n, func() {
+					ctx, cancel := context.WithTimeout(context.Background(), 10*time.Minute)
+					defer cancel()
+					h, err := e.W.Sy.Head(ctx)
+					e.Note("head:"+n, headRes{h, err, 0})
+				})
+			}
+		},
+		Check: func(e *Env, x *Exec, viol func(string, string, ...any)) {
+			w := e.W
+			out := fmt.Sprintf("reqs=%d ", w.G.heads-e.Notes["heads0"].(int))
+			for _, n := range []string{"H1", "H2"} {
+				r, _ := e.Notes["head:"+n].(headRes)
+				if r.Err == nil && r.H != nil && (r.H.Ht > uint64(w.Cfg.N) || string(r.H.Hash()) != string(w.C[r.H.Ht].Hash())) {
+					viol("forged-head-returned", "%s: Head() returned %v (err %v), which is not a header of the chain", n, r.H, r.Err)
+				}
+				if r.H != nil {
+					out += fmt.Sprintf("%s=%d/%v ", n, r.H.Ht, r.Err != nil)
+				} else {
+					out += fmt.Sprintf("%s=nil/%v ", n, r.Err != nil)
+				}
+			}
+			for _, h := range w.StoredHeights() {
+				ctx, cancel := context.WithTimeout(context.Background(), time.Second)
+				got, err := w.St.GetByHeight(ctx, h)
+				cancel()
+				if err != nil || got == nil || h > uint64(w.Cfg.N) || string(got.Hash()) != string(w.C[h].Hash()) {
+					viol("foreign-header-stored", "height %d holds %v (%v)", h, got, err)
+				}
+			}
+			chain := map[string]bool{}
+			for _, h := range w.C[1:] {
+				chain[h.Hash().String()] = true
+			}
+			for _, p := range w.Sy.VerifPendingHashes() {
+				if !chain[p] {
+					viol("unverified-header-promoted", "pending set holds %s, which is not a header of the chain", p)
+				}
+			}
+			x.Outcome = out
+		}})
 	if thoroughTier {
 		out = append(out, Scenario{Name: "SS3-forged-vs-target", Batch: batch, Cfg: WCfg{N: 10, S: 3, R: 2},
 			Build: func(e *Env) {
@@ -293,6 +351,20 @@ func runProp(t *testing.T, id string, scenarios func(batch int) []Scenario, rule
 	claimed := vk.Pick(run, 1, 2)
 	run.Set("preemption_bound_claimed", claimed)
 	batches := []int{1, 3}
+	if f := os.Getenv("VERIF_SCENARIO"); f != "" {
+		// development aid: only the scenarios whose name contains f (such a run never claims exhaustiveness)
+		all := scenarios
+		scenarios = func(b int) []Scenario {
+			var out []Scenario
+			for _, sc := range all(b) {
+				if strings.Contains(sc.Name, f) {
+					out = append(out, sc)
+				}
+			}
+			return out
+		}
+		run.NotExhaustive("VERIF_SCENARIO filter " + f)
+	}
 	nslots := len(batches) * len(scenarios(1))
 	slot := vk.Pick(run, 6*time.Minute, 30*time.Minute) / time.Duration(nslots)
 	var total int64
